@@ -351,6 +351,8 @@ func checkPrefix(tr *trace, k int) (fs []finding, obs map[string]int, rerr error
 		return nil, nil, err
 	}
 	defer srv.Close()
+	// the restarted broker finds its sessions with SCAN: small pages, MATCH applied afterwards (empty pages before the end)
+	srv.SetScanPage([]int{1, 2, 3, 5, 10}[k%5])
 	if err := srv.Apply(tr.journal[:k]); err != nil {
 		return nil, nil, err
 	}
